@@ -320,8 +320,9 @@ func (env *specEnv) index(x, i Val) Val {
 			return Val{T: "(gs.at " + x.T + " " + i.T + ")", Sort: "Int"}
 		}
 	case *types.Map:
-		hv, _ := sc.mapHeaps(u)
-		return Val{T: "(select (select " + env.heapRead(hv, x) + " " + x.T + ") " + i.T + ")", Ty: u.Elem(), St: x.St}
+		hv, hh := sc.mapHeaps(u)
+		has := "(and (not (= " + x.T + " 0)) (select (select " + env.heapRead(hh, x) + " " + x.T + ") " + i.T + "))"
+		return Val{T: "(ite " + has + " (select (select " + env.heapRead(hv, x) + " " + x.T + ") " + i.T + ") " + sc.zero(u.Elem()) + ")", Ty: u.Elem(), St: x.St}
 	case *types.Pointer:
 		if au, ok := u.Elem().Underlying().(*types.Array); ok {
 			h := sc.ptrHeap(u.Elem())
